@@ -62,6 +62,14 @@ func (e *kvElection) watchUntilClosed(ctx context.Context) {
 	checkTicker := time.NewTicker(500 * time.Millisecond)
 	defer checkTicker.Stop()
 
+	// A watch reports what changes from now on. The last existence check may lie
+	// a whole retry pause back (watchLoop) and the first tick is another period
+	// away: check now, so that a vacancy that arose while nobody was watching is
+	// not left unnoticed for two periods.
+	if !e.IsLeader() {
+		e.checkKeyAndReelect(ctx)
+	}
+
 	for {
 		select {
 		case <-ctx.Done():
